@@ -52,6 +52,7 @@ type run struct {
 	shape  string
 	rep    vegeta.Reporter // the reporter of the current history (report scenarios)
 	repHDR bool
+	arrival string // order in which the current history adds the results (report scenarios)
 	// the JSON rendering of the histogram returned last, and a copy of what it read then
 	heldJSON, heldJSONCopy []byte
 }
